@@ -20,7 +20,7 @@ import (
 
 const c17Marker = "OUTSIDE-MARKER-7f3a9c"
 
-var c17Tokens = []string{"..", ".", "", "sub", "a.txt", "b.css", "SECRET.txt", "rootx", "%2e%2e", "..%2f", "%2f", `\`, `%5c..`, "%00", "a.txt.", ".../", "s.css", "..%5c", "c.js"}
+var c17Tokens = []string{"..", ".", "", "sub", "a.txt", "b.css", "SECRET.txt", "rootx", "%2e%2e", "..%2f", "%2f", `\`, `%5c..`, "%00", "a.txt.", ".../", "s.css", "..%5c", "c.js", "e.scss", "m.mjs", "acss", "x.css.bak"}
 
 type c17Case struct {
 	Handler string `json:"handler"` // StaticDir StaticFS StaticFiles StaticFile
@@ -61,7 +61,7 @@ func c17Setup() {
 				panic(err)
 			}
 		}
-		for _, f := range []string{"root/a.txt", "root/sub/b.css", "root/sub/c.js", "root/sub/d.md", "root/s.css"} {
+		for _, f := range []string{"root/a.txt", "root/sub/b.css", "root/sub/c.js", "root/sub/d.md", "root/s.css", "root/e.scss", "root/sub/m.mjs", "root/acss", "root/x.css.bak"} {
 			c := "INSIDE:" + f
 			w(f, c)
 			c17Inside[c] = true
@@ -194,7 +194,7 @@ func c17Run(c c17Case, st *fw.Stats) []fw.Viol {
 var c17Spec = fw.Spec[c17Case]{
 	ID:    "C17",
 	Level: "model_checking",
-	Rule: "complete enumeration: all request paths of <=3 (thorough 4) tokens over 19 tokens {.., ., empty, sub, a.txt, b.css, SECRET.txt, rootx, %2e%2e, ..%2f, %2f, \\, %5c.., %00, 'a.txt.', '.../', s.css, ..%5c, c.js} after each mount prefix, sent with URL.RawPath = the raw string and URL.Path = its decoding, for StaticDir / StaticFS(http.Dir) / StaticFiles(css|js) / StaticFile x prefixes {/d, /deep/d} x both UseEncodedPath settings, against a real sandbox tree with marked files outside the root (parent directory, name-prefix sibling 'rootx'); " +
+	Rule: "complete enumeration: all request paths of <=3 (thorough 4) tokens over 23 tokens {.., ., empty, sub, a.txt, b.css, SECRET.txt, rootx, %2e%2e, ..%2f, %2f, \\, %5c.., %00, 'a.txt.', '.../', s.css, ..%5c, c.js, e.scss, m.mjs, acss, x.css.bak} after each mount prefix, sent with URL.RawPath = the raw string and URL.Path = its decoding, for StaticDir / StaticFS(http.Dir) / StaticFiles(css|js) / StaticFile x prefixes {/d, /deep/d} x both UseEncodedPath settings, against a real sandbox tree with marked files outside the root (parent directory, name-prefix sibling 'rootx'); " +
 		"oracle: no body carries an outside marker or lists an outside directory, every 200 body is a file under the root, StaticFiles answers 200 only for allowed extensions, StaticFile only its file; non-trivial = a path containing a dot-dot in some encoding",
 	Assume: []string{"relative to the sandbox tree and the OS / file system the check runs on", "net/http's FileServer is part of the implementation under test, not of the oracle"},
 	Bounds: func(tier string) map[string]any {
